@@ -545,7 +545,7 @@ def smallorder_case(rec, d):
                 "%s: %s" % (type(ex).__name__, ex))
 
 
-def remote_validation_case(rec, P, form):
+def remote_validation_case(rec, P, form, enc="uncompressed"):
     """a remote key given as bytes / DER / PEM is used only after passing
     public-key validation: on a cofactor curve every on-curve point outside
     the subgroup generated by G must be refused"""
@@ -556,7 +556,11 @@ def remote_validation_case(rec, P, form):
     ci = CurveInfo.get(rec)
     c = ci.env.curve
     l = ci.plen
-    data = b"\x04" + P[0].to_bytes(l, "big") + P[1].to_bytes(l, "big")
+    xb, yb = P[0].to_bytes(l, "big"), P[1].to_bytes(l, "big")
+    data = {"uncompressed": b"\x04" + xb + yb,
+            "raw": xb + yb,
+            "compressed": bytes([2 + (P[1] & 1)]) + xb,
+            "hybrid": bytes([6 + (P[1] & 1)]) + xb + yb}[enc]
     e = ECDH(c)
     e.load_private_key(SigningKey.from_secret_exponent(3, c))
     try:
@@ -576,7 +580,7 @@ def remote_validation_case(rec, P, form):
     if P in ci.sub:
         S = ci.env.mult[(3 * ci.env.idx[P]) % ci.n]
         if got != ("ok", S[0]):
-            return ("remote-valid-key:" + form, ("ok", S[0]), got)
+            return ("remote-valid-key:%s:%s" % (form, enc), ("ok", S[0]), got)
         return None
     if got == ("MalformedPointError",):
         return None
@@ -591,14 +595,17 @@ def shard_remote_validation(arg):
     sh = Shard()
     for P in pts:
         for form in ("bytes", "der", "pem"):
-            sh.n += 1
-            sh.nt += 1
-            bad = remote_validation_case(rec, P, form)
-            if bad:
-                sh.hist["fail:" + bad[0]] += 1
-                sh.violation("remote", bad[0],
-                             dict(rec=rec, P=list(P), form=form),
-                             bad[1], bad[2])
+            for enc in ("uncompressed", "compressed", "hybrid", "raw"):
+                if enc == "raw" and form != "bytes":
+                    continue
+                sh.n += 1
+                sh.nt += 1
+                bad = remote_validation_case(rec, P, form, enc)
+                if bad:
+                    sh.hist["fail:" + bad[0]] += 1
+                    sh.violation("remote", bad[0],
+                                 dict(rec=rec, P=list(P), form=form, enc=enc),
+                                 bad[1], bad[2])
     sh.extra["exchanges"] = sh.n
     sh.sample(dict(curve=[rec["p"], rec["a"], rec["b"]], h=rec["h"],
                    remote_point=list(pts[0]), forms=["bytes", "der", "pem"]),
@@ -702,7 +709,8 @@ def replay(check, case):
         bad = real_case(case["curve"], case["i"], case["j"], case["form"])
     elif check == "remote":
         bad = remote_validation_case(case["rec"], tuple(case["P"]),
-                                     case["form"])
+                                     case["form"],
+                                     case.get("enc", "uncompressed"))
     else:
         raise ValueError(check)
     if not bad:
